@@ -201,6 +201,8 @@ def _val(v, params):
         if isinstance(of, dict) and of.get('k') == 'atom' and not of.get('path') and of.get('root') in params:
             return ('param-elem', params.index(of['root']))
     v = vt.strip(v)
+    if isinstance(v, dict) and v.get('k') == 'atom' and len(v.get('path') or []) == 1 and v.get('root') in params:
+        return ('param-field', params.index(v['root']), v['path'][0])
     if isinstance(v, dict):
         if v.get('k') == 'lit':
             return ('lit', str(v.get('v')))
@@ -211,6 +213,51 @@ def _val(v, params):
         if v.get('k') == 'atom' and not v.get('path') and str(v.get('root', '')).isupper():
             return ('const', v['root'])
     return ('?', vt.show(v)[:30])
+
+
+def _object_fields(ctx, v, params, depth=0):
+    """Field values of a small key object — `{field: _val}` — for: a struct literal; a constant whose initialiser is a struct
+    literal or a (const) constructor call `T::ctor("lit")`; such a constructor call written in place.  ('param', i) when the
+    value is the caller's own parameter (the object is passed on unchanged); None when it cannot be followed."""
+    v = vt.strip(v)
+    while isinstance(v, dict) and v.get('k') in ('ref', 'deref', 'paren'):
+        v = vt.strip(v.get('v'))
+    if not isinstance(v, dict) or depth > 4:
+        return None
+    if v.get('k') == 'atom' and not v.get('path') and v.get('root') in params:
+        return ('param', params.index(v['root']))
+    if v.get('k') == 'struct' and isinstance(v.get('fields'), dict):
+        return {k2: _val(x, params) for k2, x in v['fields'].items()}
+    if v.get('k') in ('path', 'atom') and not v.get('path'):
+        name = str(v.get('text') or v.get('root') or '').replace(' ', '').split('::')[-1]
+        it = [i for i in ctx.astq['items'] if i['kind'] in ('const', 'static') and i['name'] == name and i['file'].endswith('parser.rs')]
+        if len(it) == 1 and it[0].get('expr'):
+            m = re.fullmatch(r'\s*([A-Za-z_][A-Za-z0-9_]*)\s*::\s*([a-z_][A-Za-z0-9_]*)\s*\((.*)\)\s*', it[0]['expr'], re.S)
+            if m:
+                args = [a_.strip() for a_ in m.group(3).split(',') if a_.strip()]
+                vals = [('lit', a_[1:-1]) if re.fullmatch(r'"[^"\\]*"', a_) else ('const', a_) if re.fullmatch(r'[A-Z_][A-Z0-9_]*', a_) else ('?', a_[:20]) for a_ in args]
+                return _ctor(ctx, m.group(1), m.group(2), vals, depth)
+        return None
+    if v.get('k') == 'call' and v.get('recv') is None and '::' in str(v.get('f', '')):
+        ty, ctor = str(v['f']).replace(' ', '').split('::')[-2:]
+        return _ctor(ctx, ty, ctor, [_val(a_, params) for a_ in v.get('args', [])], depth)
+    return None
+
+
+def _ctor(ctx, ty, ctor, vals, depth):
+    fs = [g for g in ctx.fns(file='parser.rs') if g['name'].split('::')[-1] == ctor and (g.get('self_ty') or '').split('<')[0] == ty]
+    if len(fs) != 1:
+        return None
+    g = fs[0]
+    gp = [p_['name'] for p_ in g['params']]
+    lit = vt.strip(g.get('tail'))
+    if not (isinstance(lit, dict) and lit.get('k') == 'struct' and isinstance(lit.get('fields'), dict)) or len(gp) != len(vals):
+        return None
+    out = {}
+    for k2, x in lit['fields'].items():
+        w = _val(x, gp)
+        out[k2] = vals[w[1]] if w[0] == 'param' else w
+    return out
 
 
 def lookup_summary(ctx, fn_name, _memo=None, _stack=()):
@@ -242,11 +289,24 @@ def lookup_summary(ctx, fn_name, _memo=None, _stack=()):
         out |= {(a, b, kd) for a in ns for b in names for kd in kinds}
     for c in f['calls']:
         g = c.get('f')
-        if c.get('recv') is None and g in local and g not in ('get_meta_items',) and g != fn_name:
+        if g in local and g not in ('get_meta_items',) and g != fn_name and (c.get('recv') is None or any(p_['name'] == 'self' for gg in ctx.fns(file='parser.rs') if gg['name'] == g for p_ in gg['params'])):
             sub = lookup_summary(ctx, g, memo, _stack + (fn_name,))
-            gparams = [p['name'] for p in ctx.fn(g, file='parser.rs')['params']]
+            gfs = [gg for gg in ctx.fns(file='parser.rs') if gg['name'] == g]
+            gparams = [p['name'] for p in gfs[0]['params']]
+            # actual arguments aligned with the callee's parameters (`self` first for a method call)
+            actual = ([c['recv']] if c.get('recv') is not None and gparams[:1] == ['self'] else []) + list(c.get('args', []))
+            c = dict(c, args=actual)
             for (a, b, kd) in sub:
                 def bind(x):
+                    if x[0] == 'param-field':
+                        if x[1] >= len(c.get('args', [])):
+                            return [('?', 'arg')]
+                        obj = _object_fields(ctx, c['args'][x[1]], params)
+                        if obj is None:
+                            return [('?', vt.show(c['args'][x[1]])[:30])]
+                        if isinstance(obj, tuple):          # the caller's own parameter object, passed on
+                            return [('param-field', obj[1], x[2])]
+                        return [obj.get(x[2], ('?', x[2]))]
                     if x[0] == 'param':
                         return [_val(c['args'][x[1]], params)] if x[1] < len(c.get('args', [])) else [('?', 'arg')]
                     if x[0] == 'param-elem':
